@@ -318,7 +318,7 @@ pub fn run_hist(src: &mut Src, rep: &mut Report, profile: Profile) -> Verdict {
     let base = make_chooser(src, nthreads, total * 8 + 4, rep);
     let mut iso: Option<Isolation> = None;
     let mut plain: Option<Box<dyn Chooser>> = None;
-    if prog.isolation && !crate::schedsrc::enumerating() {
+    if prog.isolation && !crate::schedsrc::enumerating() && !crate::schedsrc::free_mode() {
         let colls: Vec<(usize, usize)> = prog
             .threads
             .iter()
@@ -622,7 +622,8 @@ impl Property for C02 {
         }
     }
     fn post(&self, tier: Tier, seed: u64, stats: &mut crate::engine::Stats) -> Result<(), (String, String, Vec<u8>)> {
-        crate::exhaust::bounded_enumeration(self, tier, seed, stats)
+        crate::exhaust::bounded_enumeration(self, tier, seed, stats)?;
+        crate::freerun::free_runs(self, tier, seed, stats)
     }
     fn run(&self, src: &mut Src, rep: &mut Report) -> Verdict {
         run_hist(src, rep, Profile::Cut)
@@ -657,7 +658,8 @@ impl Property for C03 {
         }
     }
     fn post(&self, tier: Tier, seed: u64, stats: &mut crate::engine::Stats) -> Result<(), (String, String, Vec<u8>)> {
-        crate::exhaust::bounded_enumeration(self, tier, seed, stats)
+        crate::exhaust::bounded_enumeration(self, tier, seed, stats)?;
+        crate::freerun::free_runs(self, tier, seed, stats)
     }
     fn run(&self, src: &mut Src, rep: &mut Report) -> Verdict {
         run_hist(src, rep, Profile::Conserve)
